@@ -105,7 +105,12 @@ def check_imposed(ctx, case):
         mt = tuple(case['mt'])
         gov = mt
         v = exact(op, vx, vy)
-        if (fx[0] or fy[0]) and not ft[0]:
+        left_const = bool(case.get('left_const')) and case.get('route') == 'config-array'
+        if left_const:
+            # the first operand is a plain numpy number holding y's value (converted to a signed object by the numpy route)
+            v = exact(op, vy, vx)
+            sig += '/left-const'
+        if (fx[0] or fy[0] or left_const) and not ft[0]:
             expect_error = ValueError
         identity = 'same' if variant == 'out' else 'different'
 
@@ -131,7 +136,8 @@ def check_imposed(ctx, case):
                     x.config.array_op_out = T
                 else:
                     x.config.array_op_out_like = T
-                return {'add': np.add, 'sub': np.subtract, 'mul': np.multiply}[op](x, y), T
+                npf = {'add': np.add, 'sub': np.subtract, 'mul': np.multiply}[op]
+                return (npf(np.float64(float(vy)), x) if left_const else npf(x, y)), T
             return opfun(op)(x, y, method=method, **{variant: T}), T
     else:
         raise ValueError(variant)
@@ -295,6 +301,7 @@ def st_case(draw):
         case['mt'] = list(draw(C.st_modes()))
         case['route'] = draw(st.sampled_from(['kwarg', 'config', 'config-array']))
         case['dirty'] = draw(st.booleans())
+        case['left_const'] = draw(st.booleans())
     return case
 
 
